@@ -36,6 +36,65 @@ theorem VRun.trans {s0 s1 s2 : VSt} (h1 : VRun s0 s1) (h2 : VRun s1 s2) : VRun s
   | init => exact h1
   | step _ hs ih => exact .step ih hs
 
+/-- the three acceptors of a handle update (`fetch_add`; load and compare-exchange of the loop form): the
+    thread keeps program and call index and is busy afterwards; the commit log stays (load, failed exchange)
+    or gets one entry tagged with this thread and its call index (`fetch_add`, successful exchange) -/
+theorem vIncAdd_shape {s s' : VSt} {e : Ev} {th : Th VPc} {c : Nat} (h : vIncAdd s e th c = .ok s') :
+    ∃ th', s'.ths = s.ths.set e.tid th' ∧ th'.ops = th.ops ∧ th'.idx = th.idx ∧ busy th' = true ∧
+      (s'.lin = s.lin ∨ ∃ op res, s'.lin = s.lin ++ [⟨e.tid, th.idx, op, res⟩]) := by
+  unfold vIncAdd at h
+  rw [guard_ok] at h; obtain ⟨_, h⟩ := h
+  rw [guard_ok] at h; obtain ⟨_, h⟩ := h
+  split at h
+  · cases h
+  · next s1 hb =>
+    obtain ⟨hths, _, hl⟩ := bindChild_ok hb
+    cases h
+    refine ⟨{ th with pc := none, retv := some "" }, ?_, rfl, rfl, rfl, .inr ⟨.inc c, (s1.spec.apply (.inc c)).2, ?_⟩⟩
+    · show s1.ths.set _ _ = _
+      rw [hths]
+    · show s1.lin ++ _ = _
+      rw [hl]
+
+theorem vIncLoad_shape {s s' : VSt} {e : Ev} {th : Th VPc} {c : Nat} (h : vIncLoad s e th c = .ok s') :
+    ∃ th', s'.ths = s.ths.set e.tid th' ∧ th'.ops = th.ops ∧ th'.idx = th.idx ∧ busy th' = true ∧
+      (s'.lin = s.lin ∨ ∃ op res, s'.lin = s.lin ++ [⟨e.tid, th.idx, op, res⟩]) := by
+  unfold vIncLoad at h
+  rw [guard_ok] at h; obtain ⟨_, h⟩ := h
+  rw [guard_ok] at h; obtain ⟨_, h⟩ := h
+  split at h
+  · cases h
+  · next s1 hb =>
+    obtain ⟨hths, _, hl⟩ := bindChild_ok hb
+    cases h
+    refine ⟨{ th with pc := some (.incCas c e.res) }, ?_, rfl, rfl, rfl, .inl hl⟩
+    show s1.ths.set _ _ = _
+    rw [hths]
+
+theorem vIncCas_shape {s s' : VSt} {e : Ev} {th : Th VPc} {c : Nat} {cur : UInt64}
+    (h : vIncCas s e th c cur = .ok s') :
+    ∃ th', s'.ths = s.ths.set e.tid th' ∧ th'.ops = th.ops ∧ th'.idx = th.idx ∧ busy th' = true ∧
+      (s'.lin = s.lin ∨ ∃ op res, s'.lin = s.lin ++ [⟨e.tid, th.idx, op, res⟩]) := by
+  unfold vIncCas at h
+  rw [guard_ok] at h; obtain ⟨_, h⟩ := h
+  split at h
+  · cases h
+  · next s1 hb =>
+    obtain ⟨hths, _, hl⟩ := bindChild_ok hb
+    split at h
+    · rw [guard_ok] at h; obtain ⟨_, h⟩ := h
+      cases h
+      refine ⟨{ th with pc := none, retv := some "" }, ?_, rfl, rfl, rfl, .inr ⟨.inc c, (s1.spec.apply (.inc c)).2, ?_⟩⟩
+      · show s1.ths.set _ _ = _
+        rw [hths]
+      · show s1.lin ++ _ = _
+        rw [hl]
+    · rw [guard_ok] at h; obtain ⟨_, h⟩ := h
+      cases h
+      refine ⟨{ th with pc := some (.incRetry c e.res) }, ?_, rfl, rfl, rfl, .inl hl⟩
+      show s1.ths.set _ _ = _
+      rw [hths]
+
 /-- an accepted event: it is a step of an OPEN call of its thread (`pc ≠ none`, i.e. after the call
     mark and before the return mark); the thread keeps program and call index and is busy afterwards;
     the commit log stays or gets one entry, tagged with this thread and its call index -/
@@ -99,13 +158,20 @@ theorem vStep_shape {s s' : VSt} {e : Ev} (h : vStep s e = .ok s') :
         rw [guard_ok] at h; obtain ⟨_, h⟩ := h
         cases h; exact ⟨th, _, hth, hp, rfl, rfl, rfl, rfl, .inl rfl⟩
       · -- incChild
-        rw [guard_ok] at h; obtain ⟨_, h⟩ := h
-        rw [guard_ok] at h; obtain ⟨_, h⟩ := h
         split at h
-        · rw [guard_ok] at h; obtain ⟨_, h⟩ := h
-          cases h; exact ⟨th, _, hth, hp, rfl, rfl, rfl, rfl, .inr ⟨_, _, rfl⟩⟩
-        · rw [guard_ok] at h; obtain ⟨_, h⟩ := h
-          cases h; exact ⟨th, _, hth, hp, rfl, rfl, rfl, rfl, .inr ⟨_, _, rfl⟩⟩
+        · obtain ⟨th', h1, h2, h3, h4, h5⟩ := vIncLoad_shape h
+          exact ⟨th, th', hth, hp, h1, h2, h3, h4, h5⟩
+        · obtain ⟨th', h1, h2, h3, h4, h5⟩ := vIncAdd_shape h
+          exact ⟨th, th', hth, hp, h1, h2, h3, h4, h5⟩
+      · -- incCas
+        obtain ⟨th', h1, h2, h3, h4, h5⟩ := vIncCas_shape h
+        exact ⟨th, th', hth, hp, h1, h2, h3, h4, h5⟩
+      · -- incRetry
+        split at h
+        · obtain ⟨th', h1, h2, h3, h4, h5⟩ := vIncLoad_shape h
+          exact ⟨th, th', hth, hp, h1, h2, h3, h4, h5⟩
+        · obtain ⟨th', h1, h2, h3, h4, h5⟩ := vIncCas_shape h
+          exact ⟨th, th', hth, hp, h1, h2, h3, h4, h5⟩
       · -- collecting
         split at h
         · rw [guard_ok] at h; obtain ⟨_, h⟩ := h
@@ -434,5 +500,60 @@ def resetSkippedTrace : List Item :=
    .call 0 "1" "reset",
    .ev ⟨0, "R", "lk", "", 0, 0, 0, true⟩, .ev ⟨0, "r", "lk", "", 0, 0, 0, true⟩,
    .ret 0 "1" ""]
+
+/-! ### a handle update written as a load + compare-exchange loop -/
+
+/-- one thread: `with:a` (miss under the read lock, get-or-create under the write lock), then the update
+    through the returned handle (sub-call `0u`) written as a loop: a Relaxed load of the child's cell (0) and a
+    successful Relaxed compare-exchange 0 -> 1 -/
+def casIncTrace : List Item :=
+  [.call 0 "0" "with:a",
+   .ev ⟨0, "R", "lk", "", 0, 0, 0, true⟩, .ev ⟨0, "r", "lk", "", 0, 0, 0, true⟩,
+   .ev ⟨0, "X", "lk", "", 0, 0, 0, true⟩, .ev ⟨0, "x", "lk", "", 0, 0, 0, true⟩,
+   .ret 0 "0" "h",
+   .call 0 "0u" "inc",
+   .ev ⟨0, "L", "c0", "Relaxed", 0, 0, 0, true⟩, .ev ⟨0, "C", "c0", "Relaxed", 0, 1, 0, true⟩,
+   .ret 0 "0u" ""]
+
+/-- the common beginning of the two-thread runs: thread 0 creates the child of `a` (miss, write lock), thread 1
+    finds it under the read lock; both open their update sub-call and both LOAD 0 from the child's cell; thread 1's
+    compare-exchange 0 -> 1 succeeds and its sub-call returns; thread 0's compare-exchange 0 -> 1 then FAILS and
+    reports the value it found, 1 -/
+def casIncRacePrefix : List Item :=
+  [.call 0 "0" "with:a",
+   .ev ⟨0, "R", "lk", "", 0, 0, 0, true⟩, .ev ⟨0, "r", "lk", "", 0, 0, 0, true⟩,
+   .ev ⟨0, "X", "lk", "", 0, 0, 0, true⟩, .ev ⟨0, "x", "lk", "", 0, 0, 0, true⟩,
+   .ret 0 "0" "h",
+   .call 1 "0" "with:a",
+   .ev ⟨1, "R", "lk", "", 0, 0, 0, true⟩, .ev ⟨1, "r", "lk", "", 0, 0, 0, true⟩,
+   .ret 1 "0" "h",
+   .call 0 "0u" "inc",
+   .ev ⟨0, "L", "c0", "Relaxed", 0, 0, 0, true⟩,
+   .call 1 "0u" "inc",
+   .ev ⟨1, "L", "c0", "Relaxed", 0, 0, 0, true⟩, .ev ⟨1, "C", "c0", "Relaxed", 0, 1, 0, true⟩,
+   .ret 1 "0u" "",
+   .ev ⟨0, "C", "c0", "Relaxed", 0, 1, 1, false⟩]
+
+/-- two threads increment the same child; thread 0's first exchange fails and the loop goes on AT ONCE with the
+    value the failed exchange reported: compare-exchange 1 -> 2 succeeds -/
+def casIncRetryTrace : List Item :=
+  casIncRacePrefix ++ [.ev ⟨0, "C", "c0", "Relaxed", 1, 2, 1, true⟩, .ret 0 "0u" ""]
+
+/-- as `casIncRetryTrace`, but after the failed exchange the loop LOADS AGAIN (1) before the exchange 1 -> 2 -/
+def casIncReloadTrace : List Item :=
+  casIncRacePrefix ++ [.ev ⟨0, "L", "c0", "SeqCst", 0, 0, 1, true⟩, .ev ⟨0, "C", "c0", "AcqRel", 1, 2, 1, true⟩, .ret 0 "0u" ""]
+
+/-- NOT accepted (a lost update): as `casIncRacePrefix`, but thread 0's exchange 0 -> 1 claims SUCCESS although
+    the child holds 1 by then -/
+def casIncStaleTrace : List Item :=
+  casIncRacePrefix.take 16 ++ [.ev ⟨0, "C", "c0", "Relaxed", 0, 1, 0, true⟩, .ret 0 "0u" ""]
+
+/-- NOT accepted: the uncontended loop of `casIncTrace`, but the exchange installs 2 instead of 0 + 1 -/
+def casIncWrongNewTrace : List Item :=
+  casIncTrace.take 8 ++ [.ev ⟨0, "C", "c0", "Relaxed", 0, 2, 0, true⟩, .ret 0 "0u" ""]
+
+/-- NOT accepted: as `casIncRacePrefix`, but thread 0's failed exchange reports 0 although the child holds 1 -/
+def casIncWrongReportTrace : List Item :=
+  casIncRacePrefix.take 16 ++ [.ev ⟨0, "C", "c0", "Relaxed", 0, 1, 0, false⟩]
 
 end Prom.C10
